@@ -207,7 +207,11 @@ def seqof(st, v):
     from pyvc.models import IT_N, IT_ARR
     a = a_of(v)
     cl = st.get("cls_of", a)
-    isl = z3.And(is_ref(v), z3.Or(cl == CLS.cid("list"), cl == CLS.cid("tuple")))
+    isl = z3.simplify(z3.And(is_ref(v), z3.Or(cl == CLS.cid("list"), cl == CLS.cid("tuple"))))
+    if z3.is_true(isl):
+        return st.get("llen", a), st.get("lelem", a)
+    if z3.is_false(isl):
+        return IT_N(v), IT_ARR(v)
     n = z3.If(isl, st.get("llen", a), IT_N(v))
     arr = z3.If(isl, st.get("lelem", a), IT_ARR(v))
     return n, arr
